@@ -170,54 +170,5 @@ fn o03a_zigzag_i64_roundtrip() {
 // were tried and dropped: HashMap<String, _> (SipHash over symbolic strings) and the f64 growth policy of
 // set_in_group_id do not terminate within 50 min even for one contig with three segments. prepare_for_decompression
 // is instead under a Verus contract (contracts/collection_open.spec); the descriptor table is listed as not covered.
-
-//@ obligation: O-03s
-//@ props: C03
-//@ kind: bounded
-//@ bound: positions 0..=5, three successive updates, all i32 values
-//@ tier: thorough
-//@ timeout: 900
-//@ functions: collection::CollectionV3::set_in_group_id collection::CollectionV3::get_in_group_id collection::CollectionV3::clear_in_group_ids
-//@ claim: the predictor table behaves as a map with default -1: set(pos,val) makes get(pos)==val and leaves every other position unchanged (growth by the f64 policy fills new entries with -1); clear() resets every position to -1. Discharges, for small concrete positions, the table contracts the Verus unit collection_details assumes
-#[kani::proof]
-#[kani::unwind(12)]
-fn o03s_in_group_id_table_is_a_map() {
-    // built field by field with a fixed hasher state: CollectionV3::new() seeds its HashMap from the OS
-    let mut c = CollectionV3 {
-        sample_desc: Vec::new(),
-        sample_ids: HashMap::with_hasher(stub_random_state_new()),
-        collection_samples_id: None,
-        collection_contigs_id: None,
-        collection_details_id: None,
-        batch_size: 1 << 20,
-        segment_size: 0,
-        kmer_length: 0,
-        prev_sample_name: String::new(),
-        placing_sample_name: String::new(),
-        placing_sample_id: 0,
-        no_samples_in_last_batch: 0,
-        samples_loaded: 0,
-        in_group_ids: Vec::new(),
-    };
-    let mut shadow = [-1i32; 12];
-    let mut step = 0;
-    while step < 3 {
-        let pos: usize = kani::any();
-        kani::assume(pos <= 5);
-        let val: i32 = kani::any();
-        c.set_in_group_id(pos, val);
-        shadow[pos] = val;
-        step += 1;
-    }
-    let q: usize = kani::any();
-    kani::assume(q < 12);
-    kani::assert(c.get_in_group_id(q) == shadow[q], "O-03s: get after sets returns the last value set, -1 for untouched positions");
-    c.clear_in_group_ids();
-    kani::assert(c.get_in_group_id(q) == -1, "O-03s: clear resets the table");
-    core::mem::forget(c);
-}
-
-#[allow(dead_code)]
-fn stub_random_state_new() -> std::hash::RandomState {
-    unsafe { std::mem::transmute::<[u64; 2], std::hash::RandomState>([0x736f6d6570736575, 0x646f72616e646f6d]) }
-}
+// O-03s (bounded CBMC check of the predictor table get/set) ran out of memory (683 s, OOM) and was dropped; the table
+// functions are now verified unbounded by Verus (O-03t-get / O-03t-set in contracts/collection_details.spec).
